@@ -116,3 +116,9 @@ def instances(tier):
         out.append(Inst(name, make_fn(ids, pos, side, flags), nvars=24 + 4 * len(ids) + 2,
                         meta=dict(ids=ids, tap_pos=pos, tap_side=side, table=flags), samples=2))
     return out
+
+LEVEL_TEXT = ("Bounded model checking of the real table-lookup code: _calc_tap_from_dataframe and _get_vk_values_from_table are "
+              "executed on tables whose characteristic rows are symbolic; for every enumerated assignment of ids/tap positions/"
+              "sides the solver shows each transformer receives exactly the symbols of its own (id, step) row, for all row values.")
+LEVEL_NOTE = ("Trusted: pandas merge/indexing on concrete keys, z3, sympy normalisation; reals for floats. Bounds: <= 3 trafos, ids {0,1}, "
+              "steps {-1,0,1}; larger tables are outside the claim.")
